@@ -11,6 +11,7 @@ CONSTANTS
   Repays = {1, 100000000, 990000000}
   FixedSeizes = {1}
   SeizeCap = 40000001
+  OpStates = {2}
   MaxDepth = 3
 VIEW View
 CHECK_DEADLOCK FALSE
